@@ -159,6 +159,25 @@ func MakeTree(r *rand.Rand, root string, features int) (TreeInfo, error) {
 			info.Cycles++
 		}
 	}
+	if features >= 1 && r.Intn(3) == 0 && len(info.FilePaths) > 0 {
+		// symlinks whose OWN name matches the exclude pattern *.tmp and that sort before their
+		// siblings: skipped when excluded (and only they), ordinary symlinks otherwise
+		d := dirs[r.Intn(len(dirs))]
+		t := info.FilePaths[r.Intn(len(info.FilePaths))]
+		if !(filepath.Ext(t) == ".tmp" || filepath.Ext(t) == ".bin" || filepath.Base(t) == "skipme") {
+			if os.Symlink(filepath.Join(root, t), filepath.Join(root, d, "a0-link.tmp")) == nil {
+				info.FileLinks++
+			}
+		}
+		if r.Intn(2) == 0 {
+			td := dirs[r.Intn(len(dirs))]
+			if td != "." && !isAncestorOrSelf(td, d) {
+				if os.Symlink(filepath.Join(root, td), filepath.Join(root, d, "a1-dirlink.tmp")) == nil {
+					info.DirLinks++
+				}
+			}
+		}
+	}
 	return info, nil
 }
 
